@@ -14,8 +14,8 @@ import TrionModel.Lemmas.SimpBasic
   evaluated — so the statement holds whenever these already evaluated results are fixed points of `evaluate`;
 * `plain_resumes`: this is so for the syntactic class `plain` (every sub-tree that is completed before the stop is a
   leaf, register-free arithmetic — whose value is a constant —, or `Rn + c` / `c + Rn`);
-* `resumes_false`: it is NOT so for every tree: `evaluate` is not idempotent on its own output
-  (`0 - (r1 - r0)` ↦ `-(r1 - r0)` ↦ `r0 - r1`).
+* `resumes_old_witness`: the tree on which it used to fail (`0 - (r1 - r0)` ↦ `-(r1 - r0)` ↦ `r0 - r1`, before the repair K5);
+  Lemmas/SimpNF.lean / SimpStableAll.lean now prove `Resumes` for every tree.
 -/
 namespace Trion.Simp
 open Trion
@@ -297,12 +297,12 @@ theorem regOff_eval1 (lk : Bytes → Lookup) (isReg : Bytes → Bool) (r : Bytes
     evaluateE lk isReg (.bin .add (.ident r) (.const c)) = .ok ⟨false, none⟩ (.bin .add (.ident r) (.const c)) := by
   have h1 : ¬ c < 0 := by omega
   have h2 : c ≠ 0 := by omega
-  simp [evaluateE, hr, afterRawE, simplifyRawE, isBad, cval, mergeE, mergeL, mergeR, findC, preInv, neutralizeRawE,
+  simp [evaluateE, hr, afterRawE, simplifyRawE, isBad, cval, mergeE, mergeL, mergeR, findC, preInv, neutralizeRawE, neutralizeBinE,
     stripNeg, neutralMain, neutralR, Ev.or, h1, h2, opOf]
 
 theorem regOff_eval2 (lk : Bytes → Lookup) (isReg : Bytes → Bool) (r : Bytes) (c : Int) (hr : isReg r = true) (hc : c ≠ 0) :
     evaluateE lk isReg (.bin .add (.const c) (.ident r)) = .ok ⟨false, none⟩ (.bin .add (.const c) (.ident r)) := by
-  simp [evaluateE, hr, afterRawE, simplifyRawE, isBad, cval, mergeE, mergeL, mergeR, findC, neutralizeRawE,
+  simp [evaluateE, hr, afterRawE, simplifyRawE, isBad, cval, mergeE, mergeL, mergeR, findC, neutralizeRawE, neutralizeBinE,
     stripNeg, neutralMain, neutralL, Ev.or, hc, opOf]
 
 /-- a sub-tree whose evaluation cannot stop at an unknown name -/
@@ -711,23 +711,19 @@ theorem plain_resumes_both (lk₁ lk₂ : Bytes → Lookup) (isReg : Bytes → B
 theorem plain_resumes {lk₁ lk₂ : Bytes → Lookup} {isReg : Bytes → Bool} (hs : Sub lk₁ lk₂) (hn : NoDef lk₁) {a : Arg}
     (ha : plain isReg a = true) : Resumes lk₁ lk₂ isReg a := (plain_resumes_both lk₁ lk₂ isReg hs hn).1 a ha
 
-/-- `Resumes` is not a property of every tree: `evaluate` is not idempotent on its own output.  The first attempt at
-`(0 - (r1 - r0)) + x` (`r0`, `r1` registers, `x` unknown) leaves `-(r1 - r0) + x`; the retry turns the already
-evaluated `-(r1 - r0)` into `r0 - r1`, which the fresh evaluation never does. -/
-theorem resumes_false :
+/-- (history: K5)  Before the swap `0 - (l - r) ↦ r - l` was added to `neutralize_raw`, `Resumes` failed for
+`(0 - (r1 - r0)) + x` (`r0`, `r1` registers, `x` unknown): the first attempt left `-(r1 - r0) + x` and the retry turned the
+already evaluated `-(r1 - r0)` into `r0 - r1`, which the fresh evaluation never did (`resumes_false`).  Now the first
+attempt leaves `(r0 - r1) + x`, and retry and fresh evaluation end with the same tree. -/
+theorem resumes_old_witness :
     let isReg : Bytes → Bool := fun s => s = [114, 48] || s = [114, 49]
     let lk₁ : Bytes → Lookup := fun _ => .notFound
     let lk₂ : Bytes → Lookup := fun s => if s = [120] then .found 1 else .notFound
-    ¬ Resumes lk₁ lk₂ isReg
-      (.bin .add (.bin .sub (.const 0) (.bin .sub (.ident [114, 49]) (.ident [114, 48]))) (.ident [120])) := by
-  intro isReg lk₁ lk₂ h
-  have := h [120] (.bin .add (.neg (.bin .sub (.ident [114, 49]) (.ident [114, 48]))) (.ident [120])) rfl
-  have e1 : evaluateE lk₂ isReg (.bin .add (.neg (.bin .sub (.ident [114, 49]) (.ident [114, 48]))) (.ident [120])) =
-      .ok ⟨true, none⟩ (.bin .add (.bin .sub (.ident [114, 48]) (.ident [114, 49])) (.const 1)) := rfl
-  have e2 : evaluateE lk₂ isReg
-      (.bin .add (.bin .sub (.const 0) (.bin .sub (.ident [114, 49]) (.ident [114, 48]))) (.ident [120])) =
-      .ok ⟨true, none⟩ (.bin .add (.neg (.bin .sub (.ident [114, 49]) (.ident [114, 48]))) (.const 1)) := rfl
-  rw [e1, e2] at this
-  simp [EvE.forget] at this
+    let a : Arg := .bin .add (.bin .sub (.const 0) (.bin .sub (.ident [114, 49]) (.ident [114, 48]))) (.ident [120])
+    evaluateE lk₁ isReg a = .nosuch [120] (.bin .add (.bin .sub (.ident [114, 48]) (.ident [114, 49])) (.ident [120])) ∧
+    evaluateE lk₂ isReg (.bin .add (.bin .sub (.ident [114, 48]) (.ident [114, 49])) (.ident [120])) =
+      .ok ⟨true, none⟩ (.bin .add (.bin .sub (.ident [114, 48]) (.ident [114, 49])) (.const 1)) ∧
+    evaluateE lk₂ isReg a = .ok ⟨true, none⟩ (.bin .add (.bin .sub (.ident [114, 48]) (.ident [114, 49])) (.const 1)) :=
+  ⟨rfl, rfl, rfl⟩
 
 end Trion.Simp
